@@ -3,6 +3,7 @@ module verif/sim
 go 1.26
 
 require (
+	github.com/anishathalye/porcupine v1.3.0
 	github.com/btcsuite/btcd/btcec/v2 v2.1.3
 	github.com/trustbloc/did-go v1.2.1
 	github.com/trustbloc/kms-go v1.1.2
